@@ -1679,6 +1679,10 @@ func (iter *Iter) WillSwitchPage() bool {
 
 // checkErrAndNotFound handle error and NotFound in one method.
 func (iter *Iter) checkErrAndNotFound() error {
+	// an empty page that says has_more_pages does not tell whether rows were selected: look at the pages after it
+	for iter.err == nil && iter.numRows == 0 && iter.next != nil {
+		*iter = *iter.next.fetch()
+	}
 	if iter.err != nil {
 		return iter.err
 	} else if iter.numRows == 0 {
